@@ -38,7 +38,7 @@ func init() {
 				proofUContributionDeps(P, R, "C06.f")
 				if v := mustFunc(P, R, "C06.f", kProofUVerify); v != nil {
 					mp(P, R, "C06.f", kProofUVerify+":challenge-roles", "accept => VerifyWithChallenge(pk, createChallenge(context, nonce, contrib, false)) with this proof's own contribution", v, AcceptTrue(0),
-						&MustPass{NoInterproc: true, Match: func(a Atom) bool {
+						&MustPass{Match: func(a Atom) bool {
 							c, ok := callAtom(a, True, kProofUVWC)
 							if !ok {
 								return false
@@ -93,7 +93,7 @@ func constructCredentialRule(P *Program, R *Report) {
 		return
 	}
 	acc := AcceptNilErr(1)
-	mp(P, R, rule, kConstruct+":ProofS", "credential => msg.Proof.Verify(b.pk, msg.Signature, b.context, b.nonce2) was true", fn, acc, &MustPass{NoInterproc: true, Match: func(a Atom) bool {
+	mp(P, R, rule, kConstruct+":ProofS", "credential => msg.Proof.Verify(b.pk, msg.Signature, b.context, b.nonce2) was true", fn, acc, &MustPass{Match: func(a Atom) bool {
 		c, ok := callAtom(a, True, kProofSVer)
 		if !ok {
 			return false
@@ -102,7 +102,7 @@ func constructCredentialRule(P *Program, R *Report) {
 		return desc(ar[0]) == ismD+".Proof" && desc(ar[1]) == cbD+".pk" && desc(ar[2]) == ismD+".Signature" && desc(ar[3]) == cbD+".context" && desc(ar[4]) == cbD+".nonce2"
 	}})
 	var msVal ssa.Value
-	mp(P, R, rule, kConstruct+":signature-verifies", "credential => the assembled signature verified under b.pk", fn, acc, &MustPass{NoInterproc: true, Match: func(a Atom) bool {
+	mp(P, R, rule, kConstruct+":signature-verifies", "credential => the assembled signature verified under b.pk", fn, acc, &MustPass{Match: func(a Atom) bool {
 		c, ok := callAtom(a, True, kCLVerify)
 		if !ok {
 			return false
@@ -124,11 +124,11 @@ func constructCredentialRule(P *Program, R *Report) {
 		}
 	}
 	noWitness := func(a Atom) bool { return desc(a.V) == ismD+".NonRevocationWitness" && a.Want == Nil }
-	mp(P, R, rule, kConstruct+":witness-verified", "credential with a witness => Witness.Verify(b.pk) returned nil", fn, acc, &MustPass{NoInterproc: true, Exempt: noWitness, Match: func(a Atom) bool {
+	mp(P, R, rule, kConstruct+":witness-verified", "credential with a witness => Witness.Verify(b.pk) returned nil", fn, acc, &MustPass{Exempt: noWitness, Match: func(a Atom) bool {
 		c, ok := callAtom(a, Nil, "revocation.(*Witness).Verify")
 		return ok && desc(c.Call.Args[0]) == ismD+".NonRevocationWitness" && desc(c.Call.Args[1]) == cbD+".pk"
 	}})
-	mp(P, R, rule, kConstruct+":witness-bound", "credential with a witness => NonrevIndex() of the new credential succeeded (the witness' e is one of the signed attributes)", fn, acc, &MustPass{NoInterproc: true, Exempt: noWitness, Match: func(a Atom) bool {
+	mp(P, R, rule, kConstruct+":witness-bound", "credential with a witness => NonrevIndex() of the new credential succeeded (the witness' e is one of the signed attributes)", fn, acc, &MustPass{Exempt: noWitness, Match: func(a Atom) bool {
 		c, idx := callAndResult(a.V)
 		return c != nil && calleeName(c) == "gabi.(*Credential).NonrevIndex" && idx == 1 && a.Want == Nil && desc(c.Call.Args[0]) == "new:gabi.Credential"
 	}})
@@ -209,7 +209,7 @@ func blindSumRule(P *Program, R *Report) {
 	for _, ck := range checks {
 		ck := ck
 		fa := &ForAll{P: P, Spec: ForAllSpec{Coll: is(cbD + ".mUser"), Body: func(f *ssa.Function, l *Loop) *MustPass {
-			return &MustPass{NoInterproc: true, Match: ck.m}
+			return &MustPass{Match: ck.m}
 		}}}
 		m := fa.inFn(fn, AcceptNilErr(1))
 		R.decide(rule, kConstruct+":blind:"+ck.name, "for every user share: "+ck.what, m.holds, m.detail, P.Pos(fn.Pos()))
@@ -233,7 +233,7 @@ func blindSumRule(P *Program, R *Report) {
 	R.decide(rule, kConstruct+":blind:sum", "ms[i] = MIssuer[i] + mUser[i]", okSum, "got "+got, P.Pos(fn.Pos()))
 	// all loop: every user share is processed before the signature is verified
 	fa := &ForAll{P: P, Spec: ForAllSpec{Coll: is(cbD + ".mUser"), Body: func(f *ssa.Function, l *Loop) *MustPass {
-		return &MustPass{NoInterproc: true, Instr: func(_ *ssa.Function, i ssa.Instruction) bool {
+		return &MustPass{Instr: func(_ *ssa.Function, i ssa.Instruction) bool {
 			st, ok := i.(*ssa.Store)
 			if !ok {
 				return false
@@ -346,7 +346,7 @@ func proveSignatureRule(P *Program, R *Report) {
 	}
 	R.decide(rule, kProveSig+":response", "EResponse = eCommit - c*e^-1 mod Order", gotResp.equal(wantResp), "got "+gotResp.String()+" want "+wantResp.String(), P.Pos(fn.Pos()))
 	R.decide(rule, kProveSig+":C", "the proof carries the hash as C", gotC == desc(call), "got "+gotC, P.Pos(fn.Pos()))
-	mp(P, R, rule, kProveSig+":inverse-checked", "a proof is returned only if e is invertible modulo the group order", fn, AcceptNilErr(1), &MustPass{NoInterproc: true, Match: func(a Atom) bool {
+	mp(P, R, rule, kProveSig+":inverse-checked", "a proof is returned only if e is invertible modulo the group order", fn, AcceptNilErr(1), &MustPass{Match: func(a Atom) bool {
 		c, _ := callAndResult(a.V)
 		return c != nil && bigMethod(c) == "ModInverse" && a.Want == NonNil
 	}})
@@ -394,7 +394,7 @@ func blindConventionRule(P *Program, R *Report) {
 			}
 		})
 		fa := &ForAll{P: P, Spec: ForAllSpec{Coll: is("arg#3"), Body: func(f *ssa.Function, l *Loop) *MustPass {
-			return &MustPass{NoInterproc: true, Match: func(a Atom) bool { return desc(a.V) == "arg#2[arg#3[#i]]" && a.Want == Nil }}
+			return &MustPass{Match: func(a Atom) bool { return desc(a.V) == "arg#2[arg#3[#i]]" && a.Want == Nil }}
 		}}}
 		okNil = fa.inFn(fn, AcceptNilErr(2)).holds
 		R.decide(rule, kSignCommit+":mIssuer-index", "the issuer's share for blind attribute j is stored under index j+1 and has Lm-1 bits", okIdx, "", P.Pos(fn.Pos()))
